@@ -89,6 +89,11 @@ class TaskControl(object):
                     msg = f"Task '{task.name}': invalid setup task '{setup_task}'."
                     raise InvalidTask(msg)
 
+            for dep in task.calc_dep:
+                if dep not in self.tasks:
+                    msg = f"{task.name}. Calc dependency '{dep}' does not exist."
+                    raise InvalidTask(msg)
+
 
     @staticmethod
     def set_implicit_deps(targets, task_list):
